@@ -1,13 +1,14 @@
 #!/usr/bin/env python3
 """Confirms and records a seeded change produced by a sub-agent.
 usage: seed_eval.py <worktree> <property> <name> [demo-package-dir-relative]
-Copies <worktree>/SEEDED/* to /verif/seeded/<name>/, applies the patch to /repo, confirms: builds, existing tests pass,
-demo fails with the change / passes without it; runs ./check <property> against the patched /repo; reverts /repo."""
-import json, os, shutil, subprocess, sys, time
+Copies <worktree>/SEEDED/* to /verif/seeded/<name>/ (if present), then works on a scratch COPY of /repo (never on /repo
+itself): demo on the unchanged copy; apply the patch; build; existing tests; demo again; govc check of the property
+against the copy (same engine, specs and known findings as ./check <property> quick); removes the copy."""
+import json, os, shutil, subprocess, sys, time, tempfile
 wt, prop, name = sys.argv[1:4]
 pkgdir = sys.argv[4] if len(sys.argv) > 4 else "."
 V = "/verif"; R = "/repo"
-env = dict(os.environ, GOFLAGS="-mod=mod", GOPROXY="off", GOSUMDB="off", GOTOOLCHAIN="local", GOVC_EVIDENCE_DIR="/tmp/govc-seed-evidence")
+env = dict(os.environ, GOFLAGS="-mod=mod", GOPROXY="off", GOSUMDB="off", GOTOOLCHAIN="local")
 dst = os.path.join(V, "seeded", name)
 os.makedirs(dst, exist_ok=True)
 for f in ("patch.diff", "zz_seeded_demo_test.go", "notes.md"):
@@ -15,29 +16,32 @@ for f in ("patch.diff", "zz_seeded_demo_test.go", "notes.md"):
     if os.path.exists(src):
         shutil.copy(src, os.path.join(dst, f))
 patch = os.path.join(dst, "patch.diff"); demo = os.path.join(dst, "zz_seeded_demo_test.go")
-def run(cmd, cwd=R, timeout=900):
+tmp = tempfile.mkdtemp(prefix="govc-seed-")
+C = os.path.join(tmp, "repo")
+shutil.copytree(R, C, ignore=shutil.ignore_patterns(".git"))
+def run(cmd, cwd=C, timeout=1500):
     r = subprocess.run(cmd, cwd=cwd, env=env, capture_output=True, text=True, timeout=timeout)
     return r.returncode, (r.stdout + r.stderr)
-assert subprocess.run(["git", "-C", R, "status", "--porcelain"], capture_output=True, text=True).stdout.strip() == "", "/repo not clean"
-ov = os.path.join("/tmp", f"ov-{name}.json")
-json.dump({"Replace": {os.path.join(R, pkgdir, "zz_seeded_demo_test.go"): demo}}, open(ov, "w"))
-demo_run = ["go", "test", "-overlay", ov, "-vet=off", "-count=1", "-timeout", "120s", "-run", "Seeded", "./" + pkgdir]
 meta = {"property": prop, "name": name, "pkgdir": pkgdir}
-rc, out = run(demo_run); meta["demo_without_change"] = "pass" if rc == 0 else "FAIL"; meta["demo_without_output"] = out[-600:]
-rc, out = run(["git", "apply", "--whitespace=nowarn", patch]); 
-if rc != 0:
-    print("PATCH DOES NOT APPLY:", out); sys.exit(1)
 try:
+    ov = os.path.join(tmp, "ov.json")
+    json.dump({"Replace": {os.path.join(C, pkgdir, "zz_seeded_demo_test.go"): demo}}, open(ov, "w"))
+    demo_run = ["go", "test", "-overlay", ov, "-vet=off", "-count=1", "-timeout", "120s", "-run", "Seeded", "./" + pkgdir]
+    rc, out = run(demo_run); meta["demo_without_change"] = "pass" if rc == 0 else "FAIL"; meta["demo_without_output"] = out[-600:]
+    rc, out = run(["patch", "-p1", "-i", patch])
+    if rc != 0:
+        print("PATCH DOES NOT APPLY:", out); sys.exit(1)
     rc, out = run(["go", "build", "./..."]); meta["builds"] = rc == 0
     rc, out = run(["go", "test", "-vet=off", "-count=1", "./..."]); meta["existing_tests_with_change"] = "pass" if rc == 0 else "FAIL"; meta["existing_tests_output"] = out[-400:]
     rc, out = run(demo_run); meta["demo_with_change"] = "fail" if rc != 0 else "PASSES"; meta["demo_with_output"] = out[-800:]
     t0 = time.time()
-    rc, out = run([os.path.join(V, "check"), prop, "quick"], cwd=V)
+    rc, out = run([os.path.join(V, "bin", "govc"), "check", "-repo", C, "-specs", os.path.join(V, "specs"), "-prop", prop, "-tier", "quick",
+                   "-out", os.path.join(tmp, "out"), "-evidence", os.path.join(tmp, "ev.json"), "-known", os.path.join(V, "known_findings.json"), "-par", "8"], cwd=V)
     meta["check_rc"] = rc; meta["check_wall_s"] = round(time.time() - t0, 1)
-    meta["check_output"] = [l for l in out.splitlines() if l.startswith(("VIOLATION", "UNDECIDED", "  failed", "property="))][:12]
+    meta["check_output"] = [l.replace(tmp, "<scratch>") for l in out.splitlines() if l.startswith(("VIOLATION", "UNDECIDED", "  failed", "property="))][:12]
 finally:
-    subprocess.run(["git", "-C", R, "checkout", "--", "."], check=True)
+    shutil.rmtree(tmp, ignore_errors=True)
 meta["detected"] = meta.get("check_rc") == 1
-meta["what_we_ran"] = "tools/seed_eval.py: git apply; go build; go test ./...; demo via -overlay with and without the change; ./check %s quick; git checkout -- ." % prop
+meta["what_we_ran"] = "tools/seed_eval.py on a scratch copy of /repo: demo via -overlay; patch -p1; go build; go test ./...; demo again; govc check -prop %s -tier quick (= ./check %s quick on the copy); copy removed" % (prop, prop)
 json.dump(meta, open(os.path.join(dst, "meta.json"), "w"), indent=1)
 print(json.dumps({k: v for k, v in meta.items() if not k.endswith("output")}, indent=1))
